@@ -37,7 +37,8 @@ META = {
     'require_counters': {'any': [
         'ref_read', 'ref_restore', 'ref_restore:line', 'ref_read:out-of-data', 'ref_read:non-numeric', 'ended_err4', 'ended_err2',
         'ended_end', 'gen_empty_item', 'gen_data_inside_multi_statement_line', 'gen_read_in_loop',
-        'gen_restore_to_line_without_data', 'gen_two_data_statements_on_a_line', 'gen_trapped', 'directed_cases']},
+        'gen_restore_to_line_without_data', 'gen_two_data_statements_on_a_line', 'gen_trapped', 'directed_cases',
+        'gen_data_item_with_unclosed_quote', 'gen_line_ending_in_unclosed_string']},
     'timeout': {'quick': 600, 'thorough': 7200},
 }
 
@@ -93,6 +94,14 @@ DIRECTED = [
      b'[1E2][2.50][&H1F]\r\n'),
     ('targets:types-and-array-elements', ['10 DATA 3,4.75,5,six', '20 DIM A%(3),T$(3)', '30 READ A%(2),B%,D#,T$(1):PRINT A%(2);B%;D#;T$(1)'],
      b' 3  5  5 six\r\n'),
+    ('unclosed-string:data-item-ends-at-end-of-line',
+     ['10 DATA 1,"two', '20 PRINT "start', '30 DATA 3', '40 READ A,B$,C:PRINT A;B$;C'], b'start\r\n 1 two 3 \r\n'),
+    ('unclosed-string:scan-for-next-data-crosses-line-end',
+     ['10 READ A$,B:PRINT A$;B', '20 A$="x', '30 DATA "a,b:c', '40 DATA 5'], b'a,b:c 5 \r\n'),
+    ('unclosed-string:restore-line-after-open-literals',
+     ['10 PRINT "p', '20 DATA "q', '30 DATA 7', '40 READ A$,B:RESTORE 30:READ C:PRINT A$;B;C'], b'p\r\nq 7  7 \r\n'),
+    ('unclosed-string:order-over-several-lines',
+     ['10 DATA 1', '20 PRINT "a:DATA 9', '30 B$="DATA 8', '40 DATA 2', '50 READ A,B:PRINT A;B'], b'a:DATA 9\r\n 1  2 \r\n'),
     ('read-in-subroutine-and-loop', ['10 FOR I%=1 TO 3:GOSUB 100:NEXT:END', '20 DATA 1,2', '100 READ A:PRINT A;:RETURN', '110 DATA 3'],
      b' 1  2  3 '),
 ]
